@@ -186,27 +186,29 @@ class Grammar:
         return self.prod_node(r[0], r[1], {})
 
     def prod_node(self, file, fn, env):
+        """a *site* node referring to a production; sites are distinct nodes, the production body is shared"""
         envkey = tuple(sorted((k, v) for k, v in env.items() if isinstance(v, str)))
         key = (file, fn["name"], envkey)
-        if key in self.prods:
-            return self.prods[key]
+        if key not in self.prods:
+            self.prods[key] = {"key": key, "file": file, "fn": fn, "env": env, "body": None}
+            self.used_fns[(file, fn["name"])] = self.dump.fn_hash(fn)
         ref = Node("ref", arg=key, src="%s:%d" % (file, fn["line"]))
-        self.prods[key] = ref
-        self.used_fns[(file, fn["name"])] = self.dump.fn_hash(fn)
-        ref.body = None
-        ref.pending = (file, fn, env)
         return ref
 
     def body_of(self, ref):
-        if ref.body is None:
-            file, fn, env = ref.pending
+        rec = self.prods[ref.arg]
+        if rec["body"] is None:
+            file, fn, env = rec["file"], rec["fn"], rec["env"]
             params = fn["params"]
             body = fn["body"]
             inp = pname(params[0]) if params else None
+            rec["body"] = "pending"
             node = self.tr_fn_body(body, file, env, inp, fn)
-            ref.body = node
+            rec["body"] = node
             self._assign_sites(node, fn["name"])
-        return ref.body
+        if rec["body"] == "pending":
+            raise Unsupported("recursive translation of %s" % (ref.arg[1],))
+        return rec["body"]
 
     def _assign_sites(self, node, prefix):
         node.site = prefix
@@ -335,6 +337,13 @@ class Grammar:
         if name in ("map", "value", "map_res_ok"):
             n = Node("map", [self.tr_parser(args[0], file, env)], arg=args[1] if len(args) > 1 else None, src=src)
             return n
+        if name == "satisfy":
+            return Node("one", arg=Pred(self, args[0], dict(env), file), src=src)
+        if name in ("one_of", "none_of"):
+            lit = self._str(args[0], env)
+            return Node("one", arg=(lambda c, lit=lit, neg=(name == "none_of"): Not(sym.c_in_str(c, lit)) if neg else sym.c_in_str(c, lit)), src=src)
+        if name == "anychar":
+            return Node("one", arg=(lambda c: True), src=src)
         if name in ("take_till", "take_till1"):
             pred = Pred(self, args[0], dict(env), file, negate=True)
             return Node("class1" if name.endswith("1") else "class0", arg=pred, src=src)
@@ -387,6 +396,91 @@ class Grammar:
         if self.dump.resolve(segs, file) is not None:
             return True
         return segs[-1] in NOM_BUILTIN_CLASS
+
+    # ---- static location of the parser whose output an accessor path denotes ----------------
+
+    def locate(self, node, steps):
+        """node: a parser node; steps: [('field', name) | ('index', k)] applied to its output"""
+        while True:
+            if node.kind == "ref":
+                if not steps:
+                    b = self.body_of(node)
+                    # a production that merely passes another parser's output through
+                    if (b.kind == "seq" and len(b.roles) == 1) or b.kind == "ref" or (b.kind == "map" and b.arg is None):
+                        node = b
+                        continue
+                    return node
+                node = self.body_of(node)
+            elif node.kind == "recognize":
+                if steps:
+                    raise Unsupported("locate: steps into recognize")
+                return node
+            elif node.kind == "map":
+                f = node.arg
+                if f is None:
+                    node = node.kids[0]
+                    continue
+                if not steps:
+                    raise Unsupported("locate: whole mapped value")
+                st = steps[0]
+                if st[0] == "field" and f["k"] == "path" and f["segs"][-1] == "from":
+                    k = self.from_field_index(f["segs"][-2], st[1])
+                    steps = ([("index", k)] if k is not None else []) + steps[1:]
+                    node = node.kids[0]
+                else:
+                    raise Unsupported("locate: map function")
+            elif node.kind == "seq":
+                if len(node.roles) == 1:
+                    node = node.kids[node.roles[0]]
+                else:
+                    if not steps or steps[0][0] != "index":
+                        raise Unsupported("locate: tuple output needs an index")
+                    node = node.kids[node.roles[steps[0][1]]]
+                    steps = steps[1:]
+            else:
+                if steps:
+                    raise Unsupported("locate: steps into %s" % node.kind)
+                return node
+
+    def is_text_output(self, node):
+        """the parser's output is exactly the text it consumed"""
+        while node.kind == "map" and node.arg is None:
+            node = node.kids[0]
+        if node.kind in ("recognize", "class0", "class1", "tag", "take_until", "take_except"):
+            return True
+        if node.kind == "ref":
+            return self.is_text_output(self.body_of(node))
+        return False
+
+    def from_field_index(self, ty, field):
+        """impl From<(A, B, ..)> for ty { fn from(value) { let (a, b, ..) = value; ty { a, b, .. } } }:
+        which tuple position initialises `field` (None when the argument is not a tuple and is the field itself)"""
+        for (f, self_ty, name), fns in self.dump.methods.items():
+            if name != "from" or not self_ty.startswith(ty):
+                continue
+            for fn in fns:
+                stmts = fn["body"]["stmts"]
+                names = None
+                arg = pname(fn["params"][0])
+                lit = None
+                for st in stmts:
+                    if st["k"] == "let" and st["pat"]["k"] == "tuple" and st["init"] and st["init"].get("segs") == [arg]:
+                        names = [el.get("name") for el in st["pat"]["elems"]]
+                    elif st["k"] == "expr" and st["e"]["k"] == "struct":
+                        lit = st["e"]
+                if lit is None:
+                    continue
+                for fl in lit["fields"]:
+                    if fl["member"] == field:
+                        e = fl["e"]
+                        if e["k"] == "path" and len(e["segs"]) == 1:
+                            if names and e["segs"][0] in names:
+                                self.used_fns[(f, "%s::from" % ty)] = self.dump.fn_hash(fn)
+                                return names.index(e["segs"][0])
+                            if e["segs"][0] == arg:
+                                return None
+                        raise Unsupported("from_field_index: field initialiser")
+        raise Unsupported("no From impl found for %s.%s" % (ty, field))
 
     # ---- the two generic helpers of nom/src/helper.rs, recognised structurally -------------
 
@@ -476,12 +570,23 @@ class Grammar:
                     variant = p["path"]["segs"][-1]
                 else:
                     raise Unsupported("helper: compare arm pattern")
+                guard = None
                 if arm["guard"] is not None:
-                    raise Unsupported("helper: guarded arm")
+                    gd = arm["guard"]
+                    # <except>.input_len() == value.input_len()
+                    def is_len(x, who):
+                        return (x["k"] == "mcall" and x["method"] in ("input_len", "len") and x["recv"]["k"] == "path"
+                                and ((who == "value" and x["recv"]["segs"] == [value_v])
+                                     or (who == "word" and isinstance(env.get(base(x["recv"]["segs"][0])), str))))
+                    if gd["k"] == "binary" and gd["op"] in ("==", "!=") and (
+                            (is_len(gd["l"], "word") and is_len(gd["r"], "value")) or (is_len(gd["l"], "value") and is_len(gd["r"], "word"))):
+                        guard = "len_eq" if gd["op"] == "==" else "len_ne"
+                    else:
+                        raise Unsupported("helper: arm guard")
                 if is_err(arm["body"]):
-                    actions.append((variant, "err"))
+                    actions.append((variant, "err", guard))
                 elif is_ok_rest_value(arm["body"]):
-                    actions.append((variant, "ok"))
+                    actions.append((variant, "ok", guard))
                 else:
                     raise Unsupported("helper: compare arm body")
             n = Node("take_except", [inner], arg=(word, test["method"], actions), src="%s:%s" % (file, main.get("line")))
@@ -711,7 +816,7 @@ class Run:
         self.calls = 0
 
     def ends(self, node, i):
-        key = (node.id, i)
+        key = (node.arg, i) if node.kind == "ref" else (node.id, i)
         r = self.memo.get(key)
         if r is not None:
             return r
@@ -975,7 +1080,7 @@ class Run:
                 res_error = Not(prefix_eq)
             accept = False
             remaining = True
-            for variant, act in actions:
+            for variant, act, guard in actions:
                 if variant == "Ok":
                     c = res_ok
                 elif variant == "Incomplete":
@@ -986,6 +1091,11 @@ class Run:
                     c = True
                 else:
                     raise Unsupported("CompareResult variant %s" % variant)
+                if guard is not None:
+                    # byte lengths; on the Ok path every matched char is ASCII, so bytes = chars
+                    if variant != "Ok":
+                        raise Unsupported("length guard on a non-Ok arm")
+                    c = And(c, (vlen == len(word)) == (guard == "len_eq"))
                 here = And(remaining, c)
                 if act == "ok":
                     accept = Or(accept, here)
@@ -993,8 +1103,123 @@ class Run:
             out.add(e, And(ce, accept))
         return out
 
+    def k_one(self, n, i):
+        out = Ends()
+        if i < self.L:
+            out.add(i + 1, n.arg(self.inp[i]))
+        return out
+
+    # verify(tuple((..)), |(a, _, b)| a.field == *b): equality of two outputs of the same production is
+    # equality of the texts they consumed (outputs are injective functions of the consumed text)
+
     def k_verify(self, n, i):
-        raise Unsupported("verify")
+        from . import active
+        kid = n.kids[0]
+        clo, env, file = n.arg
+        if clo["k"] != "closure" or len(clo["params"]) != 1:
+            raise Unsupported("verify: closure shape")
+        pat = clo["params"][0]
+        if pat["k"] == "typed":
+            pat = pat["pat"]
+        if pat["k"] == "ref":
+            pat = pat["pat"]
+        seq = kid
+        while seq.kind in ("map", "recognize"):
+            seq = seq.kids[0]
+        binds = {}
+        if pat["k"] == "ident":
+            # verify(P, |v| !v.is_empty()): P must consume at least one character
+            body = clo["body"]
+            while body["k"] == "block" and len(body["stmts"]) == 1 and body["stmts"][0]["k"] == "expr":
+                body = body["stmts"][0]["e"]
+            neg = False
+            if body["k"] == "unary" and body["op"] == "!":
+                neg = True
+                body = body["e"]
+            if (body["k"] == "mcall" and body["method"] == "is_empty" and body["recv"].get("segs") == [pat["name"]]
+                    and self.g.is_text_output(kid)):
+                out = Ends()
+                for e, ce in self.ends(kid, i).items():
+                    if (e > i) == neg:
+                        out.add(e, ce)
+                return out
+            raise Unsupported("verify: closure over a single value")
+        if pat["k"] == "tuple":
+            if seq.kind != "seq" or len(seq.roles) != len(pat["elems"]):
+                raise Unsupported("verify: tuple pattern vs parser")
+            for k, el in enumerate(pat["elems"]):
+                if el["k"] == "ident":
+                    binds[el["name"]] = seq.roles[k]
+                elif el["k"] != "wild":
+                    raise Unsupported("verify: pattern element")
+        else:
+            raise Unsupported("verify: non-tuple pattern")
+        body = clo["body"]
+        while body["k"] == "block" and len(body["stmts"]) == 1 and body["stmts"][0]["k"] == "expr":
+            body = body["stmts"][0]["e"]
+        if body["k"] != "binary" or body["op"] not in ("==", "!="):
+            raise Unsupported("verify: body is not an (in)equality")
+
+        def accessor(e):
+            steps = []
+            while True:
+                if e["k"] in ("unary", "ref"):
+                    e = e["e"]
+                elif e["k"] == "field":
+                    steps.insert(0, ("field", e["member"]))
+                    e = e["base"]
+                elif e["k"] == "mcall" and e["method"] in ("clone", "as_ref", "borrow") and not e["args"]:
+                    e = e["recv"]
+                elif e["k"] == "path" and len(e["segs"]) == 1 and e["segs"][0] in binds:
+                    return binds[e["segs"][0]], steps
+                else:
+                    raise Unsupported("verify: accessor expression")
+
+        kx, sx = accessor(body["l"])
+        ky, sy = accessor(body["r"])
+        tx = self.g.locate(seq.kids[kx], sx)
+        ty = self.g.locate(seq.kids[ky], sy)
+        if tx.kind != "ref" or ty.kind != "ref" or tx.arg != ty.arg:
+            raise Unsupported("verify: the two sides are not outputs of the same production")
+        # enumerate the start positions of the tuple members
+        paths = [((), i, True)]
+        for member in seq.kids:
+            nxt = []
+            for starts, j, c in paths:
+                for e, ce in self.ends(member, j).items():
+                    v = And(c, ce)
+                    if v is not False:
+                        nxt.append((starts + (j,), e, v))
+            paths = nxt
+        out = Ends()
+        # anything the wrappers between verify's child and the tuple add (map/recognize) does not move positions
+        for starts, e, c in paths:
+            spx = self._spans(seq.kids[kx], starts[kx], tx)
+            spy = self._spans(seq.kids[ky], starts[ky], ty)
+            eq = False
+            for (q1, e1, c1) in spx:
+                for (q2, e2, c2) in spy:
+                    if e1 - q1 != e2 - q2:
+                        continue
+                    same = And(c1, c2, *[sym.ceq(self.inp[q1 + d], self.inp[q2 + d]) for d in range(e1 - q1)])
+                    eq = Or(eq, same)
+            out.add(e, And(c, eq if body["op"] == "==" else Not(eq)))
+        return out
+
+    def _spans(self, member, start, target):
+        from . import active
+        key = ("spans", member.id, start, target.id)
+        r = self.memo.get(key)
+        if r is None:
+            r = []
+            for (nid, q), (node, a) in active.activation_from(self, member, start, True).items():
+                if nid == target.id:
+                    for e, ce in self.ends(node, q).items():
+                        v = And(a, ce)
+                        if v is not False:
+                            r.append((q, e, v))
+            self.memo[key] = r
+        return r
 
     # convenience
 
